@@ -58,6 +58,12 @@ func genAgentStream(p *simkit.Plan, r *simkit.Rand, tier string) {
 		c["echo_bytes"] = 0
 	}
 	c["pending_write"] = int64(simkit.Pick(r, []int{0, 0, 1 << 20}))
+	// A second Close by another caller while the first one is parked between two
+	// of its phases (1..4); it too must not return before the process is gone.
+	if r.Chance(1, 4) {
+		c["second_close_at"] = int64(r.Range(1, 4))
+		c["set_delay_during_close"] = 0
+	}
 }
 
 type agentChild struct {
@@ -212,6 +218,9 @@ func execAgentStream(plan *simkit.Plan) *simkit.Result {
 		var closeErr error
 		sawEOF, sawTerm := false, false
 		finished := false
+		secondAt := int(c["second_close_at"])
+		closed2 := make(chan closeResult, 1)
+		firstParked := false
 		for !finished {
 			select {
 			case site := <-reached:
@@ -222,6 +231,27 @@ func execAgentStream(plan *simkit.Plan) *simkit.Result {
 						tellExit("at-" + strings.TrimPrefix(site, "agentstream.close."))
 					}
 				}
+				if secondAt > 0 && closeSites[secondAt-1] == site && !firstParked {
+					// The first Close stays parked here; another caller closes the
+					// same stream and runs through unhindered.
+					firstParked = true
+					hookMu.Lock()
+					hookOn = false
+					hookMu.Unlock()
+					s.Count("probe.second_close_started", 1)
+					go func() { closed2 <- closeResult{stream.Close()} }()
+					continue
+				}
+				proceed <- struct{}{}
+			case r2 := <-closed2:
+				s.Logf("close", "the second Close returned: %v", r2.err)
+				s.Count("probe.second_close_returned", 1)
+				if err := syscall.Kill(pid, 0); err == nil {
+					if st, rerr := os.ReadFile(fmt.Sprintf("/proc/%d/stat", pid)); rerr == nil && !strings.Contains(string(st), ") Z ") {
+						s.Violate("C35", "process-alive-after-close", "second-close", "a second Stream.Close, called while the first one was between two of its phases, returned (%v) but process %d still exists: %s", r2.err, pid, strings.TrimSpace(string(st)))
+					}
+				}
+				// Now the first one may go on.
 				proceed <- struct{}{}
 			case ev := <-child.evCh:
 				s.Logf("child", "event %s", ev)
@@ -274,7 +304,10 @@ func execAgentStream(plan *simkit.Plan) *simkit.Result {
 		} else if !errors.Is(err, syscall.ESRCH) {
 			panic(fmt.Sprintf("kill(pid, 0): %v", err))
 		}
-		if cmd.ProcessState == nil {
+		if secondAt > 0 {
+			// (Two callers waited for the process: which of the two Wait calls
+			// recorded its state is not part of the property.)
+		} else if cmd.ProcessState == nil {
 			s.Violate("C35", "not-waited", fmt.Sprintf("exit_at_%d", exitAt), "Stream.Close returned (%v) without having waited for the process", closeErr)
 		} else if exitAt == 7 {
 			// A child that ignores everything can only have ended by SIGKILL.
